@@ -243,8 +243,9 @@ class ModelSystem(System):
         for h in range(len(c.assocs)):
             if h in c.r_assocs or c.assocs[h] is None:
                 continue
-            if any(c.assocs[h] == c.assocs[g] for g in c.r_assocs):
-                continue
+            # (no value comparison with the live associations here: comparing generated objects walks
+            # asset -> associations -> assets and recurses for ever on cyclic models; the model identifies
+            # associations by identity, so a stale object that equals a live one is an ordinary stale object)
             out.append(h)
         return out
 
